@@ -28,7 +28,7 @@ from ..monitors import EvalTracer
 
 glom = env.bind()
 import glom.core as gcore  # noqa: E402
-from glom import (T, Path, Not, Flatten, Coalesce, Or, And, Switch, Match, Check, Val, Pipe, Spec, M, GlomError, Fill, Auto,  # noqa: E402
+from glom import (T, Path, Not, Flatten, Coalesce, Or, And, Switch, Match, Check, Val, Pipe, Spec, M, GlomError, Fill, Auto, Required, Optional,  # noqa: E402
                   glom as G)
 
 META = {
@@ -406,6 +406,13 @@ TARGETS = {}
 # ---------------------------------------------------------------------------
 # the oracle
 
+def _same(a, b):
+    try:
+        return type(a) is type(b) and bool(a == b)
+    except Exception:
+        return False
+
+
 def all_frames(root):
     out, stack = [], [root]
     while stack:
@@ -474,6 +481,27 @@ def check_message(col, msg, root, target, desc, key, width):
         positions.append(nxt)
     pos = positions[0]          # position of the failing spec
     col.count('ancestors_located', len(anc))
+    # (3') what the followed flow lists BEFORE the failing spec, apart from its ancestors, are completed steps that an ancestor was
+    # chained to: earlier steps of a chain; for a Switch the case key that selected the value; for a Match-mode dict the evaluation
+    # of the item's KEY against a key pattern.  A completed evaluation of something else (the value of ANOTHER item, say) is not on
+    # the way from the root spec to the failing one
+    legit = list(anc)
+    for a_, b_ in zip(anc, anc[1:]):
+        before = a_.children[:a_.children.index(b_)]
+        if type(a_.spec) is dict and isinstance(a_.target, dict):
+            keypats = [k.key if type(k) in (Required, Optional) else k for k in a_.spec]
+            before = [x for x in before if any(x.spec is k for k in keypats) and any(x.target is k or _same(x.target, k) for k in a_.target)]
+        elif type(a_.spec) is Switch:
+            before = [x for x in before if any(x.spec is k for k, _v in a_.spec.cases)]
+        for x in before:
+            legit.extend(all_frames(x))
+    for j in range(pos):
+        ln = flow_specs[j][1]
+        col.count('flow_lines_before_the_failing_spec')
+        if not any(matches(ln.text, f.spec) for f in legit):
+            return col.violation('C05/spec-before-the-failing-spec-not-on-the-way-to-it',
+                                 '%s: before the failing spec %s the trace lists %r, which is neither one of its ancestors nor a '
+                                 'completed step one of them was chained to\n%s' % (desc, short(fmt_full(failing.spec), 100), ln.text, msg), wit)
     # nothing unrelated after the failing spec: later followed Spec lines belong to frames nested in the failing frame
     inside = all_frames(failing)
     for j in range(pos + 1, len(flow_specs)):
